@@ -3,14 +3,16 @@
 (* of one kind (`focus', chosen at the start) so that the depth bound is       *)
 (* spent on sequences of writes and reads of the same values.                  *)
 EXTENDS Attribute
-CONSTANTS MaxDepth, FocusKinds, DAccs, DAttrs, DRanges, DVTs, Calls
+CONSTANTS MaxDepth, FocusKinds, DAccs, DAttrs, DRanges, DVTs, Calls,
+          ORanges, OVTs      \* the index ranges / value classes tried on attributes other than Value
 VARIABLES depth, focus
 dvars == <<depth, focus>>
 DInit == Init /\ depth = 0 /\ focus \in FocusKinds
 DNext ==
   /\ depth < MaxDepth /\ depth' = depth + 1 /\ UNCHANGED focus
-  /\ \E acc \in DAccs, attr \in DAttrs, r \in DRanges :
-       \/ "Write" \in Calls /\ \E vt \in (IF focus = "none" THEN {"same", "null"} ELSE VTs(focus)) \cap DVTs : Write(focus, acc, attr, r, vt)
+  /\ \E acc \in DAccs, attr \in DAttrs : \E r \in (IF attr = "Value" THEN DRanges ELSE ORanges) :
+       \/ "Write" \in Calls /\ \E vt \in (IF focus = "none" THEN {"same", "null"} ELSE VTs(focus)) \cap (IF attr = "Value" THEN DVTs ELSE OVTs) :
+                                   Write(focus, acc, attr, r, vt)
        \/ "Read" \in Calls /\ Read(focus, acc, attr, r)
 Done == depth = MaxDepth
 =============================================================================
